@@ -135,6 +135,7 @@ struct ThreadDriver : vrt::Driver {
       saved[slot].owner = t;
       saved[slot].id = static_cast<long>(IDManager::GetThreadID());
       saved[slot].used = true;
+      vrt::NoteWrite();
       vrt::Log("{\"e\":\"hbget\",\"t\":%d,\"k\":%d,\"id\":%ld,\"x\":%d}", t, slot, saved[slot].id, saved[slot].hb.expired());
     } else if (k == "HBL") {
       // the client keeps a locked (strong) reference to a heartbeat: legal use of the weak_ptr it was given
